@@ -1,6 +1,6 @@
 (* C07 — a batch is isolated as the union of its controller and everything inside it.
    Statements only; proofs in BatchProps.v. *)
-From Shred Require Import Base SrcParams Plan PlanObs PlanLemmas PlanInv PlanLoc PlanBuild PlanProps Exec ExecProps BatchProps.
+From Shred Require Import Base SrcParams Plan PlanObs PlanLemmas PlanInv PlanLoc PlanBuild PlanProps Exec ExecProps BatchProps ExecObs ExecPlan TraceOracles ExecOracles ParSeq ParSeqProps TreeAccept NestedObs NestedExec NestedAccept.
 
 (* [eff_reads r] / [eff_writes r]: what the controller declares plus what every registration
    inside the batch declares, recursively.  The access lists that add_batch hands to the
@@ -42,6 +42,45 @@ Theorem C07_inner_events_inside_the_batch_window :
   forall e, In e tr -> In (ev_tag e) inner -> ev_tag e <> t -> opened = true \/ precedes (EF t) e tr.
 Proof. exact inside_window_spec. Qed.
 Print Assumptions C07_inner_events_inside_the_batch_window.
+
+(* ---- the whole tree in ONE trace set ----
+   [ntr n rs tr]: tr is a trace of the nested dispatch of program rs (nesting depth < n): erasing what
+   happens inside batches leaves a trace of the level's own dispatch; the events of each batch's subtree
+   lie inside the batch's window and are `count` nested traces of the inner program, one after the
+   other; different subtrees interleave freely.  [sub_reg r rs]: r is registered in rs at any depth.
+   For every such trace and any two systems or batches at ANY depth whose declared accesses (with
+   everything inside them) conflict, and neither of which contains the other: projected onto the two,
+   the trace is a sequence of whole windows — they never overlap, also across repeated inner dispatches. *)
+Theorem C07_conflicting_systems_anywhere_in_the_tree_never_overlap :
+  forall n rs tr, ntr n rs tr -> wf rs ->
+  forall ra rc a c, sub_reg ra rs -> sub_reg rc rs -> reg_tag ra = Some a -> reg_tag rc = Some c ->
+  ~ In a (subtree_tags rc) -> ~ In c (subtree_tags ra) -> reg_conflict ra rc = true ->
+  serial2 a c (proj [a; c] tr).
+Proof. exact nested_conflicting_serial. Qed.
+Print Assumptions C07_conflicting_systems_anywhere_in_the_tree_never_overlap.
+
+(* in the form of the run-time oracle: c is never fetched while a window of a is open *)
+Theorem C07_conflicting_systems_anywhere_never_inside_each_others_window :
+  forall n rs tr, ntr n rs tr -> wf rs ->
+  forall ra rc a c, sub_reg ra rs -> sub_reg rc rs -> reg_tag ra = Some a -> reg_tag rc = Some c ->
+  ~ In a (subtree_tags rc) -> ~ In c (subtree_tags ra) -> reg_conflict ra rc = true ->
+  forall u1 u2 u3, tr = u1 ++ EF a :: u2 ++ EF c :: u3 -> In (ER a) u2.
+Proof. exact nested_conflicting_never_overlap. Qed.
+Print Assumptions C07_conflicting_systems_anywhere_never_inside_each_others_window.
+
+(* the executable acceptor that suite S2 runs on the whole recorded log of a dispatch (all depths) is
+   sound for that trace set: the theorem above holds of every recorded run it accepts *)
+Theorem C07_nested_acceptor_sound :
+  forall n rs tr, wf rs -> naccept n rs tr = true -> ntr n rs tr.
+Proof. exact naccept_sound. Qed.
+Print Assumptions C07_nested_acceptor_sound.
+
+(* the trace set is inhabited by a genuinely nested, interleaved, repeated run *)
+Theorem C07_nested_traces_exist :
+  ntr 2 [RBatch 1 [] [] [] [] 5%Z 2 [RSys 2 [] [] [] [8] 1%Z; RSys 3 [] [] [9] [] 1%Z]; RSys 4 [] [] [] [7] 3%Z]
+        [EF 1; EF 4; EF 2; EF 3; ER 2; ER 3; ER 4; EF 3; ER 3; EF 2; ER 2; ER 1].
+Proof. exact ntr_example. Qed.
+Print Assumptions C07_nested_traces_exist.
 
 Example C07_example :
   (* the controller declares nothing, an inner system two levels down writes 8: the outer
